@@ -86,8 +86,10 @@ func normalizeSymbolicLinkAndEnsurePortable(path, target string) (string, error)
 	pathDepth := strings.Count(path, "/")
 	for _, component := range strings.Split(target, "/") {
 		// Update the depth.
-		if component == "." {
-			// No change to depth.
+		if component == "." || component == "" {
+			// No change to depth. Empty components (which arise from
+			// consecutive or trailing slashes) are collapsed during path
+			// resolution and thus don't descend into a directory.
 		} else if component == ".." {
 			pathDepth--
 		} else {
